@@ -49,6 +49,10 @@ func explore(ctx *Ctx) (*Outcome, error) {
 		fmt.Printf("V %s/%s exp=%s obs=%s :: %s\n    doc=%s\n    schema=%s\n", v.Kind, v.Class, trunc(v.Expected, 80), trunc(v.Observed, 80), trunc(v.Detail, 160), trunc(v.Doc, 200), trunc(fmt.Sprintf("%s", v.Schema), 700))
 	}
 	o := FromSem(ctx, rep, "generic random schemas", 1, nil)
+	if os.Getenv("XCHECK") != "" {
+		cov, inc := modelCrossCheck(ctx, 400)
+		fmt.Println("XCHECK", cov, inc)
+	}
 	o.Violations = nil
 	return o, nil
 }
